@@ -43,6 +43,13 @@ pub fn c16_alphabet() -> C16Alphabet {
             }
         }
     }
+    // other modifier stacks (name, modifiers - as an ordered list - and arities must all agree for
+    // a match): parameterless X only, to keep the enumerated space small
+    for m in ["DAGGER ", "DAGGER CONTROLLED ", "CONTROLLED DAGGER ", "FORKED "] {
+        for q in &cal_qubits {
+            ids.push(format!("DEFCAL {m}X {q}"));
+        }
+    }
     let n_gate_ids = ids.len();
     for n in ["", "!mid"] {
         for q in ["0", "1", "q"] {
@@ -59,6 +66,11 @@ pub fn c16_alphabet() -> C16Alphabet {
             for p in C16_QUERY_PARAMS {
                 queries.push(format!("{m}RX({p}) {q}"));
             }
+        }
+    }
+    for m in ["DAGGER ", "DAGGER CONTROLLED ", "CONTROLLED DAGGER ", "FORKED "] {
+        for q in &query_qubits {
+            queries.push(format!("{m}X {q}"));
         }
     }
     for n in ["", "!mid"] {
@@ -111,11 +123,42 @@ fn c16_derive_header(rng: &mut Rng, query: &str) -> String {
         return format!("DEFCAL MEASURE{name} {q}{target}");
     }
     // [CONTROLLED ]NAME[(p)] q [q]
-    let (mods, rest) = match query.strip_prefix("CONTROLLED ") {
-        Some(r) => ("CONTROLLED ", r),
-        None => ("", query),
-    };
-    let mods = if rng.chance(1, 12) { if mods.is_empty() { "CONTROLLED " } else { "" } } else { mods };
+    // split off the leading modifier words
+    let mut rest = query;
+    let mut mod_words: Vec<&str> = Vec::new();
+    loop {
+        let mut stripped = false;
+        for m in ["CONTROLLED ", "DAGGER ", "FORKED "] {
+            if let Some(r) = rest.strip_prefix(m) {
+                mod_words.push(m);
+                rest = r;
+                stripped = true;
+                break;
+            }
+        }
+        if !stripped {
+            break;
+        }
+    }
+    // occasionally perturb the modifier list: toggle CONTROLLED, drop one, or reverse the order
+    if rng.chance(1, 10) {
+        match rng.below(3) {
+            0 => {
+                if mod_words.is_empty() {
+                    mod_words.push("CONTROLLED ");
+                } else {
+                    mod_words.clear();
+                }
+            }
+            1 if !mod_words.is_empty() => {
+                let k = rng.below(mod_words.len());
+                mod_words.remove(k);
+            }
+            _ => mod_words.reverse(),
+        }
+    }
+    let mods: String = mod_words.concat();
+    let mods = mods.as_str();
     let mut toks = rest.split_whitespace();
     let head = toks.next().unwrap_or("X");
     let qubits: Vec<&str> = toks.collect();
@@ -201,6 +244,9 @@ const GSPECS: &[GSpec] = &[
     // two parameters: at most one of them is generalised to the variable %t when a calibration is
     // derived, so a constant can come before (or after) the variable in the DEFCAL header
     GSpec { mods: "", name: "U2", nparams: 2, nqubits: 1, level: 7 },
+    // further modifier stacks (a calibration matches only a gate with the same ordered modifiers)
+    GSpec { mods: "DAGGER ", name: "Y", nparams: 0, nqubits: 1, level: 8 },
+    GSpec { mods: "DAGGER CONTROLLED ", name: "RZ", nparams: 1, nqubits: 2, level: 9 },
 ];
 const MEASURE_LEVEL: usize = 4;
 
